@@ -224,7 +224,7 @@ func ruleC08R2(r *Run) {
 	// Repeat: the state machine is built from the parameter map and its sorted non-empty keys
 	got := map[string]ssa.Value{}
 	var storePos token.Pos
-	for _, b := range rep.Blocks {
+	for _, b := range p.body(rep) {
 		for _, in := range b.Instrs {
 			if st, ok := in.(*ssa.Store); ok {
 				if fa, ok := st.Addr.(*ssa.FieldAddr); ok && p.fieldAddrOwner(fa) == "stateMachine" {
@@ -341,7 +341,7 @@ func ruleC08R3(r *Run) {
 			}
 			// after the loop: panic stopTest
 			okPanic := false
-			for _, b := range ex.Blocks {
+			for _, b := range p.body(ex) {
 				if l.Body[b] {
 					continue
 				}
@@ -389,7 +389,7 @@ func ruleC08R3(r *Run) {
 		}
 	}
 	n := 0
-	for _, b := range cl.Blocks {
+	for _, b := range p.body(cl) {
 		for _, in := range b.Instrs {
 			st, ok := in.(*ssa.Store)
 			if !ok {
@@ -515,7 +515,7 @@ func ruleC08R5(r *Run) {
 	// the skip: stores into the map happen only under Name != checkMethodName
 	n := 0
 	var theMap ssa.Value
-	for _, b := range fn.Blocks {
+	for _, b := range p.body(fn) {
 		for _, in := range b.Instrs {
 			mu, ok := in.(*ssa.MapUpdate)
 			if !ok {
@@ -596,7 +596,7 @@ func ruleC08R6(r *Run) {
 	// (b) inside the filter: every return reachable from the invalidData edge passes failOnError(t)
 	ok := false
 	why := "the invalidData edge of the recover filter returns without consulting the failure flag"
-	for _, b := range filterFn.Blocks {
+	for _, b := range p.body(filterFn) {
 		iff, isIf := b.Instrs[len(b.Instrs)-1].(*ssa.If)
 		if !isIf {
 			continue
